@@ -1,9 +1,12 @@
 CONFIG = {
     "level": "proof",
-    "level_text": "Lean theorems (kernel-checked, no sorry/axioms) about the scheduler reference model for every operation history: sender order, no double scheduling, maximal-priority picks, capacity bound, minimal-priority eviction, strict replacement, forward expiry, reset. The Go scheduler is tied to the model on every run by a checked correspondence (generated histories incl. 2^63 / 2^64-1 boundaries, implementation choices validated as witnesses).",
+    "level_text": "Lean theorems (kernel-checked, no sorry/axioms) about the scheduler reference model for every operation history: sender order, no double scheduling, maximal-priority picks, capacity bound, minimal-priority eviction, strict replacement, forward expiry, reset. Plus an implementation-level model (OasisModel/TxPool/Impl.lean: the incremental maintenance of the max heap, per-sender sequence heaps and the scheduled map by insert/remove/replace/forward/scheduleOne/restoreMaxHeap, written function by function as the Go code, Go panics as explicit Fault outcomes) with a refinement proof for every history over uint64 sequence numbers (Props/C20Impl.lean: no Fault is reachable, max heap content = reference ready set, every operation maps under abs to the reference operation, reset is independent of the map iteration order), so the reference theorems hold of the implementation-level model. The Go scheduler is tied to both models on every run by a checked correspondence (generated histories incl. 2^63 / 2^64-1 boundaries, implementation choices validated as witnesses) which also compares, after every operation, the real max heap content, scheduled map and sender heaps with the implementation-level model's state.",
     "technique": "Lean 4 proof over reference model + witness-checking correspondence with the Go scheduler",
     "models": ["txpool"],
-    "lean_sources": ["OasisModel/TxPool", "OasisModel/Proto.lean"],
+    "lean_sources": ["OasisModel/TxPool", "OasisModel/Proto.lean",
+                     "OasisProofs/Helpers/TxPoolImpl.lean", "OasisProofs/Helpers/TxPoolImplOps.lean"],
+    # implementation-level model: refinement theorems, built and axiom-audited with Props/C20.lean
+    "extra_theorem_files": [{"file": "OasisProofs/Props/C20Impl.lean", "namespace": "OasisProofs.C20Impl"}],
     "drivers": [
         {"name": "txpooldrv",
          "quick": ["-cases", "3000", "-ops", "40"],
@@ -12,11 +15,14 @@ CONFIG = {
     "trusted_base": [
         "Lean 4.33 kernel (axioms per theorem listed under coverage.axioms; at most propext, Classical.choice, Quot.sound)",
         "the reference model OasisModel/TxPool/Sched.lean is the specification; it is tied to go/runtime/txpool by the txpooldrv correspondence (checker with witness: the implementation's picks and eviction victims must be allowed by the model)",
+        "the implementation-level model OasisModel/TxPool/Impl.lean is a hand translation of main_queue_scheduler.go; it is tied to the code state by state (max heap content, scheduled map, sender heaps compared after every operation of every generated history) — not by a mechanical extraction",
+        "Go's container/heap keeps the heap order and the index fields (Swap/Push/Pop) consistent: a heap is modelled by its content, peek as any maximal element; the driver checks the real heap's order and index bookkeeping after every operation (VerifQueue.MaxHeapCheck)",
         "harness/cmd/txpooldrv, harness/hlib (generators, line protocol), the verif-tagged wrapper go/runtime/txpool/export_verif.go",
     ],
     "assumptions": [
         "sequence numbers are modelled as naturals below 2^64; the successor of 2^64-1 does not exist",
         "transaction hashes are unique per add (the pool rejects known hashes before the main queue)",
+        "implementation-level model: the min-priority heap is identified with the txs map (both are updated by the same three primitives), a sender's txs map and sequence heap are one list; schedule limits and the capacity are non-negative",
     ],
     "explanation": "Theorems about the reference model for every operation history; correspondence implementation vs model on generated histories incl. the 2^63 and 2^64-1 boundaries.",
 }
